@@ -1,7 +1,11 @@
 package websocket
 
 import (
+	"bufio"
 	"context"
+	"net/http"
+	"runtime"
+	"strings"
 	"time"
 )
 
@@ -258,4 +262,72 @@ func verifC20_slow_close() {
 	vAssert(vNot(vIsOpen(c)), "C20.slow-close.closed")
 	<-rdone
 	vObserve("c20slowclose", when, err == nil)
+}
+
+// vGhostGoroutinesNow counts the library's goroutines at this very moment (no settling first): a goroutine that is still
+// alive when Close / CloseNow returns is alive, even if it would end by itself a moment later.
+func vGhostGoroutinesNow() int {
+	buf := make([]byte, 1<<20)
+	buf = buf[:runtime.Stack(buf, true)]
+	n := 0
+	for _, g := range strings.Split(string(buf), "\n\n") {
+		if vCreatedByLibrary(g) {
+			n++
+		}
+	}
+	return n
+}
+
+// C20.closeread-now: CloseRead followed at once by CloseNow / Close - the reader goroutine may not even have started:
+// when the call returns that goroutine is gone (counted without settling).
+func verifC20_closeread_now() {
+	client := vParam("client", 1) == 1
+	vInstallRand()
+	t := vNewTransport(nil)
+	t.endMode = vEndBlock
+	c := vNewConn(t, client, nil, 32, 64)
+	vGhostSettle() // the timeout watcher is parked
+	c.CloseRead(vBG)
+	if vChoose("final", 2) == 1 {
+		ctx, cancel := context.WithTimeout(vBG, time.Second)
+		_ = ctx
+		cancel()
+		c.Close(StatusNormalClosure, "")
+	} else {
+		c.CloseNow()
+	}
+	vReach("C20.closeread-now.closed")
+	vAssert(vGhostGoroutinesNow() == 0, "C20.exit.no-goroutine-left-when-close-returns")
+	vObserve("c20crnow", 0)
+}
+
+// C20.accept: a connection made by Accept from a request whose context outlives it (a handler that goes on working, a
+// long-lived server context): after Close / CloseNow nothing of the library is left waiting for that context.
+func verifC20_accept() {
+	vInstallRand()
+	rctx, rcancel := context.WithCancel(vBG)
+	defer rcancel()
+	r := (&http.Request{Method: "GET", ProtoMajor: 1, ProtoMinor: 1, Header: http.Header{}, Host: "example.com"}).WithContext(rctx)
+	r.Header.Set("Connection", "Upgrade")
+	r.Header.Set("Upgrade", "websocket")
+	r.Header.Set("Sec-WebSocket-Version", "13")
+	r.Header.Set("Sec-WebSocket-Key", "dGhlIHNhbXBsZSBub25jZQ==")
+	t := vNewTransport(nil)
+	t.endMode = vEndBlock
+	w := &vRespWriter{hdr: http.Header{}, conn: &vNetConn{t}}
+	w.brw = bufio.NewReadWriter(bufio.NewReaderSize(w.conn, 16), bufio.NewWriterSize(w.conn, 16))
+	c, err := accept(w, r, &AcceptOptions{})
+	vAssert(err == nil && c != nil, "C20.accept.setup")
+	if c == nil {
+		return
+	}
+	vGhostSettle()
+	if vChoose("final", 2) == 1 {
+		c.Close(StatusNormalClosure, "")
+	} else {
+		c.CloseNow()
+	}
+	vReach("C20.accept.closed")
+	vAssert(vGhostGoroutines() == 0, "C20.exit.no-goroutine-left-when-close-returns")
+	vObserve("c20accept", 0)
 }
